@@ -13,6 +13,8 @@
 (*   <<"app", x, args>>      application of a function-typed variable      *)
 (*   <<"tuple", args>>  <<"slice", args>>  <<"lam", y, body>>              *)
 (*   <<"fld", e, F>>         field access e.F  (_.F is fun y -> y.F)       *)
+(*   <<"if", c, a, b>>   <<"pipe", x, f, args>>   <<"papp", f, args>>      *)
+(*   <<"lamn", <<y1, .., yn>>, body>>                                      *)
 (* Statements:  <<"let", v, e>>   <<"destr", <<v1, .., vn>>, e>>            *)
 (* A function: [name, params |-> <<names>>, stmts, fin].                    *)
 (*                                                                         *)
@@ -53,6 +55,8 @@ LibSigs ==
   @@ ("slice.Append" :> Sig(1, <<Sl(SV(1)), Sl(SV(1))>>, Sl(SV(1))))
   @@ ("slice.PushLast" :> Sig(1, <<SV(1), Sl(SV(1))>>, Sl(SV(1))))
   @@ ("slice.Map" :> Sig(2, <<Fu(<<SV(1)>>, SV(2)), Sl(SV(1))>>, Sl(SV(2))))
+  @@ ("slice.Filter" :> Sig(1, <<Fu(<<SV(1)>>, TBool), Sl(SV(1))>>, Sl(SV(1))))
+  @@ ("slice.Fold" :> Sig(2, <<Fu(<<SV(2), SV(1)>>, SV(2)), SV(2), Sl(SV(1))>>, SV(2)))
   \* type IR1 = {A: int; B: string}   type IR2 = {Name: string; Vals: []int}   type IBox<T> = {Val: T; Tag: string}
   @@ ("{IR1}" :> Sig(0, <<TInt, TStr>>, Nm("IR1", <<>>)))
   @@ ("{IR2}" :> Sig(0, <<TStr, Sl(TInt)>>, Nm("IR2", <<>>)))
@@ -108,6 +112,25 @@ GenE(sigs, e, env, st) ==
          LET a == GenE(sigs, e[2], env, st)
              r == TV(a.st.n + 1)
          IN [t |-> r, st |-> St(Append(a.st.eqs, <<"fld", a.t, e[3], r>>), a.st.n + 1)]
+    [] e[1] = "if" ->                                   \* if c then a else b : c is bool, both branches have one type
+         LET a == GenArgs(sigs, <<e[2], e[3], e[4]>>, env, st)
+         IN [t |-> a.ts[2], st |-> St(a.st.eqs \o <<<<a.ts[1], TBool>>, <<a.ts[2], a.ts[3]>>>>, a.st.n)]
+    [] e[1] = "pipe" ->                                 \* x |> f a1 .. ak  is  f a1 .. ak x
+         GenE(sigs, <<"call", e[3], e[4] \o <<e[2]>>>>, env, st)
+    [] e[1] = "papp" ->                                 \* partial application f a1 .. ak : a function of the remaining parameters
+         LET a == GenArgs(sigs, e[3], env, st)
+             sg == sigs[e[2]]
+             base == a.st.n
+             k == Len(e[3])
+         IN [t |-> Fu([i \in 1..(Len(sg.args) - k) |-> Inst(sg.args[k + i], base)], Inst(sg.res, base)),
+             st |-> St(a.st.eqs \o [i \in 1..k |-> <<a.ts[i], Inst(sg.args[i], base)>>], base + sg.n)]
+    [] e[1] = "lamn" ->                                 \* fun y1 .. yn -> body
+         LET k == Len(e[2])
+             tys == [i \in 1..k |-> TV(st.n + i)]
+             env2 == [y \in (DOMAIN env) \cup {e[2][i] : i \in 1..k} |->
+                        IF \E i \in 1..k : e[2][i] = y THEN tys[CHOOSE i \in 1..k : e[2][i] = y] ELSE env[y]]
+             b == GenE(sigs, e[3], env2, St(st.eqs, st.n + k))
+         IN [t |-> Fu(tys, b.t), st |-> b.st]
     [] e[1] = "lam" ->
          LET ty == TV(st.n + 1)
              b == GenE(sigs, e[3], Ext(env, e[2], ty), St(st.eqs, st.n + 1))
